@@ -50,15 +50,29 @@ class SymType(str):
 
 class SymToken:
     """stands for sly.lex.Token; value/index/lineno/end filled from a representative once the type is fixed"""
-    def __init__(self, explorer, i):
+    def __init__(self, explorer, i, prev=None, layout=False):
+        """layout=True: the line number is symbolic too - decided lazily (same line as the previous token / next line) the
+        first time the code under test reads it, so only paths that look at line numbers fork"""
         self.explorer = explorer
         self.i = i
         self.fixed = None           # terminal name once fixed on this path
         self.excluded = frozenset()  # terminals excluded on this path
         self.type = SymType(self)
-        self.lineno = 1
+        self._lineno = None if (layout and prev is not None) else 1
+        self._prev = prev
         self.index = i * 8
         self.end = i * 8 + 7
+
+    @property
+    def lineno(self):
+        if self._lineno is None:
+            base = self._prev.lineno
+            self._lineno = base + self.explorer.choose_int(2)
+        return self._lineno
+
+    @lineno.setter
+    def lineno(self, v):
+        self._lineno = v
 
     def type_name(self):
         return self.fixed if self.fixed is not None else '<any-of-%d>' % self.domain_size()
